@@ -83,13 +83,16 @@ def genFormat (table : List (Str × Str)) (fmt pre suf : Str) : R Str := do
         | some rx => renameGroups pre suf rx cache) ([] : List (Str × Nat))
   pure out
 
+/-- one step of `__validate_format`: a capture `name__k` joins `name`; a differing duplicate is rejected -/
+def validateStep (acc : List (Str × Option Str)) (p : Str × Option Str) : R (List (Str × Option Str)) :=
+  let k := splitFirst p.1 ['_', '_']
+  match alookup k acc with
+  | none => .ok (acc ++ [(k, p.2)])
+  | some v => if v == p.2 then .ok acc else .error .fmtValue
+
 /-- `__validate_format`: merge `name__k` captures; differing duplicates are rejected -/
 def validateFormat (gd : List (Str × Option Str)) : R (List (Str × Option Str)) :=
-  gd.foldlM (fun (acc : List (Str × Option Str)) (p : Str × Option Str) =>
-      let k := splitFirst p.1 ['_', '_']
-      match alookup k acc with
-      | none => pure (acc ++ [(k, p.2)])
-      | some v => if v == p.2 then pure acc else .error .fmtValue) []
+  gd.foldlM validateStep []
 
 /-- attribute values -/
 inductive AV where
